@@ -122,6 +122,8 @@ class Bench:
             if self.reply["frame"] is None:
                 for p in req.responses:
                     req.send(p)
+            elif isinstance(self.reply["frame"], list):
+                req.conn.deliver_many([req.dev.wrap(req.conn, f) for f in self.reply["frame"]], 0.01)
             else:
                 req.send(req.dev.wrap(req.conn, self.reply["frame"]))
 
@@ -136,7 +138,8 @@ class Bench:
         assert out[0] == "ok" and self.ac.online, out
         self.base = snapshot(self.ac)
 
-    def step(self, frame: bytes):
+    def step(self, frame):
+        """frame: one mutated frame, or a list of frames delivered back to back as one reply batch."""
         self.reply["frame"] = frame
         coro = self.ac.get_capabilities() if self.kind == "caps" else self.ac.refresh()
         out = self.rig.run(coro)
@@ -176,6 +179,7 @@ def shards(tier):
     out = []
     out += [("lenbyte", lo, lo + 8) for lo in range(0, len(varied_frames()), 8)]
     out += [("same", 0, 0)]
+    out += [("batch", i, 0) for i in range(len(KINDS))]
     for k in KINDS + ["state-crc0", "state-sum0"] + (["state-sum", "props-ack", "energy-crc0"] if tier == "thorough" else []):
         n = len(valid_frame(k))
         step = 3 if tier == "thorough" else 6
@@ -215,6 +219,45 @@ def run_lenbyte(st: Stats, lo, hi):
                         bench.close()
                         bench = Bench(kind)
                     st.ev(("lenbyte", lo + fi, pos, v), "dropped" if not prob else "used", True)
+    finally:
+        bench.close()
+
+
+def run_batch(st: Stats, kind: str):
+    """Two and three corrupted frames in one reply batch: each one must be dropped on its own merits."""
+    good = valid_frame(kind)
+    n = len(good)
+
+    def corrupt(pos, m, fix):
+        f = bytearray(good)
+        f[pos] ^= m
+        if fix:
+            f[-1] = rc.checksum(bytes(f[1:-1]))
+        return bytes(f)
+
+    muts = [corrupt(p, m, fx) for p, m, fx in ((1, 0x01, False), (n - 1, 0xFF, False), (12, 0x40, True), (n - 3, 0x08, True), (10 + (n - 12) // 2, 0x81, True),
+                                               (5, 0x20, False), (11, 0x02, True))]
+    muts = [f for f in muts if must_drop(f)]
+    bench = Bench(kind)
+    try:
+        for i in range(len(muts)):
+            for j in range(len(muts)):
+                for third in (None, (i + j + 1) % len(muts)):
+                    batch = [muts[i], muts[j]] + ([muts[third]] if third is not None else [])
+                    case = {"kind": "batch", "frames": [b.hex() for b in batch], "response": kind}
+                    out, snap, online, supported = bench.step(batch)
+                    prob = None
+                    if out[0] != "ok":
+                        prob = f"raised {type(out[1]).__name__}"
+                    elif snap != bench.base:
+                        prob = "state changed"
+                    elif (kind != "caps" and online) or supported:
+                        prob = f"online={online} supported={supported} after only corrupt frames"
+                    if prob:
+                        st.violation(f"{kind}: batch of {len(batch)} corrupted frames: {prob.split('=')[0]}", case, "all dropped", prob)
+                        bench.close()
+                        bench = Bench(kind)
+                    st.ev(("batch", kind, i, j, third), "dropped" if not prob else "used", True)
     finally:
         bench.close()
 
@@ -264,6 +307,9 @@ def run_shard(shard, tier) -> Stats:
     if kind == "same":
         run_same(st)
         return st
+    if kind == "batch":
+        run_batch(st, KINDS[lo])
+        return st
     det = Determinism(first=0, every=10**9)
     good = valid_frame(kind)
     masks = range(1, 256)
@@ -310,9 +356,11 @@ def run_shard(shard, tier) -> Stats:
 
 
 def replay(case):
-    if case["kind"] in ("lenbyte", "same"):
+    if case["kind"] in ("lenbyte", "same", "batch"):
         st = Stats()
-        if case["kind"] == "same":
+        if case["kind"] == "batch":
+            run_batch(st, case["response"])
+        elif case["kind"] == "same":
             run_same(st)
         else:
             run_lenbyte(st, 0, len(varied_frames()))
